@@ -2,7 +2,7 @@
 proof (Props/C19.v over Repo/Ext.v) + correspondence repoextmodel (extracted model) vs the real xvc
 binary on generated histories + an oracle written from the property text that judges every real
 copy / move directly from the store event logs, the cache object set and the workspace."""
-from . import repo as R, repoext as X
+from . import common as C, repo as R, repoext as X
 
 THEOREMS = ["copy_shares_object", "move_preserves_count", "refuses", "absent_source_ok", "cross_ext_refuted"]
 
@@ -128,7 +128,59 @@ def classify_corr(sc, j):
     return None
 
 
+def algo_switch_probe(xvc, rng):
+    """oracle only (M-REPO has one configured algorithm per repository): a source committed under one hash
+    algorithm and edited afterwards must still be refused by copy and move when the configuration names
+    another algorithm ("both refuse to proceed when the source has uncommitted changes")."""
+    import os
+    from .xvc import XvcRepo
+    a1, a2 = rng.sample(["blake3", "blake2", "sha2", "sha3"], 2)
+    kind = rng.choice(["copy", "move"])
+    method = rng.choice(["copy", "hardlink", "symlink"])
+    sc = {"tracked_with": a1, "command_with": a2, "kind": kind, "method": method}
+    bad = []
+    with XvcRepo(xvc, prefix="c19algo", git=False) as rp:
+        rp.write("src.txt", "committed version\n", mtime_ns=R.BASE_NS + 1_000_000_000)
+        r = rp.xvc("--skip-git", "-c", "cache.algorithm=" + a1, "file", "track", "--recheck-method", method, "src.txt")
+        if r.failed:
+            return sc, []
+        rp.write("src.txt", "edited, not committed\n", mtime_ns=R.BASE_NS + 5_000_000_000)
+        before = R.observe_real(rp.root, "Ok")
+        r = rp.xvc("--skip-git", "-c", "cache.algorithm=" + a2, "file", kind, "src.txt", "dst.txt")
+        after = R.observe_real(rp.root, "Ok")
+        if not r.failed:
+            bad.append("`xvc file %s src.txt dst.txt` went through although src.txt has uncommitted changes (tracked with %s, command run with %s)" % (kind, a1, a2))
+        elif any(before[k] != after[k] for k in ("ws", "objs", "recs")):
+            bad.append("`xvc file %s src.txt dst.txt` was refused but changed the repository" % kind)
+        if rp.read("src.txt") != b"edited, not committed\n" and rp.read("dst.txt") != b"edited, not committed\n":
+            bad.append("the uncommitted bytes of src.txt are gone after `xvc file %s`" % kind)
+    return sc, bad
+
+
 def run(chk, replay=None):
+    import random
+    if replay and replay.get("kind") == "algo-switch":
+        chk.proof()
+        sc, bad = algo_switch_probe(C.ensure_xvc(), random.Random(replay["rseed"]))
+        for w in bad[:1]:
+            chk.fail("oracle", w, {"kind": "algo-switch", "rseed": replay["rseed"], "scenario": sc}, name="algoswitch")
+        return
+    res = _run(chk, replay)
+    if not replay:
+        xvc = C.ensure_xvc()
+        n, nb = (6 if chk.tier == "quick" else 40), 0
+        for i in range(n):
+            rseed = chk.rng.randrange(1 << 30)
+            sc, bad = algo_switch_probe(xvc, random.Random(rseed))
+            chk.count(("algo-switch", rseed), True)
+            if bad and nb < 2:
+                nb += 1
+                chk.fail("oracle", bad[0], {"kind": "algo-switch", "rseed": rseed, "scenario": sc, "all": bad}, name="algoswitch")
+        chk.cov.setdefault("distribution", {})["algo_switch_probes"] = n
+    return res
+
+
+def _run(chk, replay=None):
     return X.run_property(
         chk, replay, "copy", oracle, classify_corr, nontrivial,
         "random histories: 2-4 tracked paths (shared extensions, nested directories, blanks, non-ASCII, no extension) with contents from a 2-3 element pool (so that paths and versions share objects), "
